@@ -1050,7 +1050,8 @@ class ImportanceNestedSampler(BaseNestedSampler):
             logger.warning(
                 f"Cannot remove less than {self.min_remove} samples"
             )
-            n = self.min_remove
+            # Cannot remove more samples than there are
+            n = min(self.min_remove, samples.size - 1)
 
         if (
             self.draw_constant
